@@ -17,6 +17,8 @@ def Err.name : Err → String
   | .KeySignatureError => "KeySignatureError" | .StructError => "StructError"
   | .Hang => "Hang" | .Other => "Other"
 
+deriving instance DecidableEq for Except
+
 /-- An element of a sequence handed to `from_bytes` / `feed`.
     `int n`   : an `Integral` (int, bool) of value `n`
     `flt n`   : a float whose value is the integer `n` (hash-equal to `n`, *not* `Integral`)
@@ -24,6 +26,14 @@ def Err.name : Err → String
     `uobj`    : an unhashable object (a list) -/
 inductive Item
   | int (n : Int) | flt (n : Int) | hobj | uobj
+  deriving DecidableEq, Repr, Inhabited
+
+/-- A Python value as far as attribute checks distinguish them.
+    `int`  : Integral (int, bool);  `flt h` : the float h/100 (so 29.97 = `flt 2997`);
+    `str`  : text as code points;   `list`/`tuple` : sequences of items; `bytes`: bytes/bytearray -/
+inductive PyVal
+  | int (n : Int) | flt (h : Int) | str (s : List Nat) | none
+  | list (xs : List Item) | tuple (xs : List Item) | bytes (xs : List Nat)
   deriving DecidableEq, Repr, Inhabited
 
 /-- `and-not` on naturals, used for two's complement `|`. -/
